@@ -930,6 +930,16 @@ func (vc *VC) compileCall(env *Env, n *SNode) *Val {
 	case "ref":
 		need(1)
 		return &Val{K: KInt, C: []string{vc.refOf(vc.compile(env, args[0]))}}
+	case "samestart":
+		// samestart(a, b): the slices / pointers a and b start at the same cell of the same allocated object
+		need(2)
+		a, b := vc.compile(env, args[0]), vc.compile(env, args[1])
+		for _, v := range []*Val{a, b} {
+			if (v.K != KPtr && v.K != KSlice) || len(v.C) < 2 {
+				sfail("samestart: arguments must be pointers or slices")
+			}
+		}
+		return vc.boolVal(app("and", sEq(a.C[0], b.C[0]), sEq(a.C[1], b.C[1])))
 	case "Z":
 		need(1)
 		return &Val{K: KInt, C: []string{vc.toInt(vc.compile(env, args[0]))}}
